@@ -393,10 +393,14 @@ def py_enumerate(I, xs, start=0):
 def py_zip(I, *xs):
     if all(isinstance(x, SymSeq) for x in xs) and xs:
         a = xs[0]
-        for b in xs[1:]:
-            if b.length.key() != a.length.key():
-                raise Unsupported("zip of symbolic sequences of different lengths")
-        return SymSeq("zip(%s)" % ",".join(str(x.key) for x in xs), a.length, lambda idx: tuple(x.at(I, idx) for x in xs))
+        length = a.length
+        if any(b.length.key() != a.length.key() for b in xs[1:]):
+            # zip truncates to the shortest: length is the minimum of the lengths
+            length = alg.sym(I.P.fresh_name("ziplen"), "Int")
+            zl = I.P.z(length)
+            I.P.assume(z3.And(*[zl <= I.P.z(x.length) for x in xs]))
+            I.P.assume(z3.Or(*[zl == I.P.z(x.length) for x in xs]))
+        return SymSeq("zip(%s)" % ",".join(str(x.key) for x in xs), length, lambda idx: tuple(x.at(I, idx) for x in xs))
     its = [I.iterate(x) for x in xs]
     return list(zip(*its))
 
